@@ -30,6 +30,11 @@ pub fn render(word: &[&str]) -> String {
     word.iter().map(|t| lexeme(t)).collect::<Vec<_>>().join(" ")
 }
 
+/// Rendering with a particular operator spelling for the BANG token class.
+pub fn render_with(word: &[&str], bang: &str) -> String {
+    word.iter().map(|t| if *t == "BANG" { bang } else { lexeme(t) }).collect::<Vec<_>>().join(" ")
+}
+
 /// Tokens used for insertions and replacements.
 pub const MUT_TOKENS: &[&str] = &["ID", "INT", "STR", ";", ",", "{", "}", "<", ">", "(", ")", "[", "]", ":", "=", "class", "in", "then", "#", "."];
 
@@ -60,17 +65,17 @@ impl Grammars {
 }
 
 /// The derivation as the tree of constituents that have a node kind (helpers flattened).
-fn expected_tree(g: &Grammar, t: &Tree) -> Vec<Node> {
+fn expected_tree(g: &Grammar, t: &Tree, bang: &str) -> Vec<Node> {
     match t {
         Tree::Tok(_) => vec![],
         Tree::Node(n, children) => {
-            let inner: Vec<Node> = children.iter().flat_map(|c| expected_tree(g, c)).collect();
+            let inner: Vec<Node> = children.iter().flat_map(|c| expected_tree(g, c, bang)).collect();
             match g.kind_of(*n) {
                 None => inner,
                 Some(kind) => {
                     let mut y = Vec::new();
                     t.yield_into(&mut y);
-                    let tokens = y.iter().map(|&t| lexeme(&g.terminals[t])).collect::<Vec<_>>().join(" ");
+                    let tokens = y.iter().map(|&t| if g.terminals[t] == "BANG" { bang } else { lexeme(&g.terminals[t]) }).collect::<Vec<_>>().join(" ");
                     vec![Node { kind: kind.to_string(), tokens, children: inner }]
                 }
             }
@@ -108,7 +113,11 @@ enum Membership {
 
 /// Evaluates one token word; returns (clause, detail) problems.
 fn eval_word(gs: &Grammars, word: &[&str], membership: Membership, tree: Option<&Tree>) -> Vec<(String, String)> {
-    let text = render(word);
+    eval_word_with(gs, word, membership, tree, "!add")
+}
+
+fn eval_word_with(gs: &Grammars, word: &[&str], membership: Membership, tree: Option<&Tree>, bang: &str) -> Vec<(String, String)> {
+    let text = render_with(word, bang);
     let parsed = match guard(|| syntax::parse(&text)) {
         Ok(p) => p,
         Err(p) => return vec![("panic".into(), format!("{} at {}", p.message, p.location))],
@@ -128,7 +137,7 @@ fn eval_word(gs: &Grammars, word: &[&str], membership: Membership, tree: Option<
         out.push(("non-sentence-accepted".to_string(), format!("`{text}` is not derivable from the documented grammar (even allowing trailing separators) but no syntax error is reported")));
     }
     if let (Some(t), true) = (tree, errors.is_empty()) {
-        let exp = expected_tree(&gs.gen, t);
+        let exp = expected_tree(&gs.gen, t, bang);
         let act = accessor_tree(&parsed.syntax_node());
         if let Some(e) = exp.first() {
             if let Some(d) = first_difference(e, &act, "") {
@@ -156,6 +165,8 @@ struct Stratum {
     name: &'static str,
     subst: Vec<(&'static str, &'static str)>,
     max_len: usize,
+    /// render every sentence once per operator spelling (the BANG class has 52 members)
+    every_operator: bool,
 }
 
 fn strata(tier: Tier) -> Vec<Stratum> {
@@ -164,9 +175,23 @@ fn strata(tier: Tier) -> Vec<Stratum> {
             name: "skeleton",
             subst: vec![("Value", "Value_1"), ("_Type", "IntType"), ("Value_name", "Value_nameid"), ("Value_fi", "Value_nameid")],
             max_len: tier.pick(11, 13),
+            every_operator: false,
         },
-        Stratum { name: "values", subst: vec![("_Statement", "_Statement_defvar"), ("_Type", "IntType")], max_len: tier.pick(11, 12) },
-        Stratum { name: "classes", subst: vec![("_Statement", "_Statement_class"), ("Value", "Value_1")], max_len: tier.pick(12, 14) },
+        Stratum { name: "values", subst: vec![("_Statement", "_Statement_defvar"), ("_Type", "IntType")], max_len: tier.pick(11, 12), every_operator: false },
+        Stratum { name: "classes", subst: vec![("_Statement", "_Statement_class"), ("Value", "Value_1")], max_len: tier.pick(12, 14), every_operator: false },
+        // every value position of every statement skeleton holds an operator call, once per operator
+        Stratum {
+            name: "operator-positions",
+            subst: vec![("Value", "Value_b"), ("_Type", "IntType"), ("Value_name", "Value_nameb"), ("Value_fi", "Value_b")],
+            max_len: tier.pick(12, 14),
+            every_operator: true,
+        },
+        Stratum {
+            name: "cond-positions",
+            subst: vec![("Value", "Value_c"), ("_Type", "IntType"), ("Value_name", "Value_nameid"), ("Value_fi", "Value_c")],
+            max_len: tier.pick(13, 15),
+            every_operator: false,
+        },
     ]
 }
 
@@ -228,7 +253,7 @@ impl Engine for C04 {
 
     fn rule(&self, tier: Tier) -> String {
         format!(
-            "(a) every sentence of G_gen (spec/grammar_gen.bnf) in three strata, each exhaustive below its bound: statement skeletons with `1`/`int`/identifier plugs up to {} tokens, every value derivation inside `defvar x = V ;` up to {} tokens, every class declaration (all type derivations, template arguments, parent lists, body items) up to {} tokens - each must parse without error and the tree seen through the typed accessors must equal the derivation; \
+            "(a) every sentence of G_gen (spec/grammar_gen.bnf) in three strata, each exhaustive below its bound: statement skeletons with `1`/`int`/identifier plugs up to {} tokens, every value derivation inside `defvar x = V ;` up to {} tokens, every class declaration (all type derivations, template arguments, parent lists, body items) up to {} tokens, every statement skeleton whose value positions (incl. def names, argument lists, foreach lists) hold an operator call, rendered once for each of the 52 operator spellings, and the same with !cond - each must parse without error and the tree seen through the typed accessors must equal the derivation; \
              (b) every token-kind word of length <= {} over {} non-trivia kinds, classified by Earley recognisers of G_gen and G_rec (spec/grammar_rec.bnf); (c) for every generated sentence of at most {} tokens every single deletion, duplication, adjacent transposition, and insertion or replacement by each of {} tokens{}; (d) every seed and corpus file parses without error. \
              Words in G_gen must have no error; words outside G_rec must have at least one; G_rec minus G_gen is a stated don't-care zone. non-trivial = sentences, and words classified outside G_rec; distinct by construction within a stratum.",
             strata(tier)[0].max_len,
@@ -247,6 +272,12 @@ impl Engine for C04 {
             "the two BNF files are the reference: every rule carries the source it was taken from (syntax.md, parser rule comments, Programmer's Reference); DESIGN Appendix A lists where the sources differ".into(),
             "tokens are joined by single spaces, one lexeme per token kind (x, 1, 0b1, \"s\", [{c}], $v, !add, !cond)".into(),
         ]
+    }
+
+    fn workers(&self, default: usize) -> usize {
+        // every worker enumerates the derivation trees itself; beyond a few workers the duplicated
+        // allocation work costs more (page-fault contention) than the sharded evaluation saves
+        default.min(5)
     }
 
     fn explore(&self, tier: Tier, ctx: &mut Ctx) {
@@ -272,6 +303,19 @@ impl Engine for C04 {
                     ctx.case(true);
                     *sentence_count.entry(st.name).or_insert(0) += 1;
                     ctx.sample(|| json!({ "stratum": st.name, "sentence": render(&word) }));
+                    if st.every_operator {
+                        for (op, _) in crate::reflex::BANGS.iter().filter(|(op, _)| *op != "!cond") {
+                            ctx.case(true);
+                            ctx.add("operator_renderings", 1);
+                            for (c, d) in eval_word_with(&gs_local, &word, Membership::Generated, Some(t), op) {
+                                ctx.fail(Failure::new(&c, render_with(&word, op), d, json!({ "word": word, "bang": op })));
+                            }
+                        }
+                        if ctx.expired() {
+                            return;
+                        }
+                        continue;
+                    }
                     for f in failures(&gs_local, &word, Membership::Generated, Some(t)) {
                         ctx.fail(f);
                     }
@@ -372,8 +416,12 @@ impl Engine for C04 {
         }
         let owned: Vec<String> = case["word"].as_array().map(|a| a.iter().filter_map(|x| x.as_str()).map(|s| s.to_string()).collect()).unwrap_or_default();
         let word: Vec<&str> = owned.iter().map(|s| s.as_str()).collect();
+        let bang = case["bang"].as_str().unwrap_or("!add").to_string();
         // re-derive a tree when the word is a G_gen sentence of a stratum (accessor clause)
-        let mut out = failures(&gs, &word, Membership::Unknown, None);
+        let mut out: Vec<Failure> = eval_word_with(&gs, &word, Membership::Unknown, None, &bang)
+            .into_iter()
+            .map(|(c, d)| Failure::new(&c, render_with(&word, &bang), d, json!({ "word": word, "bang": bang })))
+            .collect();
         if gs.in_gen(&word) {
             for st in strata(Tier::Thorough) {
                 let g = gs.gen.substituted(&st.subst, "SourceFile");
@@ -385,9 +433,9 @@ impl Engine for C04 {
                     t.yield_into(&mut buf);
                     if buf.iter().map(|&i| g.terminals[i].as_str()).eq(word.iter().copied()) {
                         let gs_local = Grammars { gen: g.clone(), rec: gs.rec.clone() };
-                        for f in failures(&gs_local, &word, Membership::Generated, Some(t)) {
-                            if !out.iter().any(|o| o.clause == f.clause) {
-                                out.push(f);
+                        for (c, d) in eval_word_with(&gs_local, &word, Membership::Generated, Some(t), &bang) {
+                            if !out.iter().any(|o| o.clause == c) {
+                                out.push(Failure::new(&c, render_with(&word, &bang), d, json!({ "word": word, "bang": bang })));
                             }
                         }
                         return out;
@@ -400,6 +448,6 @@ impl Engine for C04 {
 
     fn shrink(&self, case: &Value, _clause: &str) -> Vec<Value> {
         let owned: Vec<String> = case["word"].as_array().map(|a| a.iter().filter_map(|x| x.as_str()).map(|s| s.to_string()).collect()).unwrap_or_default();
-        tgv_core::shrink::deletions(&owned).into_iter().map(|w| json!({ "word": w })).collect()
+        tgv_core::shrink::deletions(&owned).into_iter().map(|w| json!({ "word": w, "bang": case["bang"] })).collect()
     }
 }
